@@ -759,7 +759,110 @@ def returned_values(fl, start=None, rmap=None, graph=None):
     return out
 
 
+# ------------------------------------------------------------------------------------------------ R-C16-7 failures of external numerical routines
+# how the library routines the solve path may hand its matrices / residual function to SIGNAL failure (from their documentation; an exception class named here
+# stands for itself and its subclasses).  A callee in a failure-converting try block that is not listed cannot be decided (ExtractError).
+_EXC_PARENTS = {"MatrixRankWarning": "UserWarning", "UserWarning": "Warning", "Warning": "Exception", "LinAlgError": "ValueError", "LinAlgWarning": "RuntimeWarning",
+                "RuntimeWarning": "Warning", "NoConvergence": "Exception", "ValueError": "Exception", "RuntimeError": "Exception", "ArithmeticError": "Exception",
+                "OverflowError": "ArithmeticError", "FloatingPointError": "ArithmeticError", "ZeroDivisionError": "ArithmeticError", "Exception": "BaseException"}
+_LINEAR_SOLVERS = {   # callee (last component) -> failure signals on a singular / ill-posed system
+    "spsolve": ("MatrixRankWarning",),        # warns `Matrix is exactly singular` (an exception only under a warnings filter "error", checked below) and returns NaN
+    "splu": ("RuntimeError",), "spilu": ("RuntimeError",), "factorized": ("RuntimeError",),      # SuperLU: RuntimeError("Factor is exactly singular")
+    "solve": ("LinAlgError",), "inv": ("LinAlgError",), "lu_factor": ("LinAlgWarning",), "lstsq": ("LinAlgError",),
+}
+_QUIET = {"solve_triangular", "dot", "matmul", "norm", "max", "abs", "toarray", "tocsr", "tocsc", "transpose", "T"}
+
+
+def _covers(handler_types, signal):
+    if handler_types is None:
+        return True            # bare except
+    cur = signal
+    while cur is not None:
+        if cur in handler_types:
+            return True
+        cur = _EXC_PARENTS.get(cur)
+    return False
+
+
+def _handler_types(h):
+    if h.type is None:
+        return None
+    ts = h.type.elts if isinstance(h.type, ast.Tuple) else [h.type]
+    return {(dotted(t) or unparse(t)).split(".")[-1] for t in ts}
+
+
+def external_failure_rules(repo, chk):
+    """R-C16-7 (T1, error discipline with a small table of library contracts): wherever the solve path converts the failure of an external numerical routine into
+    SolverStatus.error, the handlers of that try block catch every way the routine signals failure.
+    (a) NewtonSolver.solve: the linear solve's try block -- for each listed linear-algebra callee in the body, each of its failure signals is covered by a handler
+        that returns SolverStatus.error; a signal that is a warning needs a module-level warnings filter turning it into an exception;
+    (b) _solver_helper: a call of the caller-supplied `solver` function runs user-visible residual code and scipy's nonlinear solvers, which fail by raising anything
+        (NoConvergence, ValueError, OverflowError from the compiled evaluator, ...): its try block needs a catch-all handler yielding SolverStatus.error."""
+    solve = repo.func(SOLV, "NewtonSolver.solve")
+    chk.fn(solve)
+    tries = [t for t in walk(solve) if isinstance(t, ast.Try) and any("SolverStatus.error" in unparse(h) for h in t.handlers)]
+    if not tries:
+        raise AnchorError("NewtonSolver.solve: no try block reporting SolverStatus.error (the linear solve's guard) found")
+    modsrc = repo.tree(SOLV)
+    filters = [c for c in ast.walk(modsrc) if isinstance(c, ast.Call) and (call_name(c) or "").endswith(("filterwarnings", "simplefilter")) and c.args and const(c.args[0]) == "error"]
+    n = 0
+    for t in tries:
+        callees = []
+        for c in walk(ast.Module(body=t.body, type_ignores=[])):
+            if isinstance(c, ast.Call):
+                nm = (call_name(c) or "?").split(".")[-1]
+                # a method of an object returned by a listed routine (lu = splu(..); lu.solve(..)) fails through the factorisation already made
+                recv = c.func.value if isinstance(c.func, ast.Attribute) else None
+                if isinstance(recv, ast.Name) and any(isinstance(a, ast.Assign) and any(isinstance(tg, ast.Name) and tg.id == recv.id for tg in a.targets)
+                                                   and isinstance(a.value, ast.Call) and (call_name(a.value) or "").split(".")[-1] in _LINEAR_SOLVERS for a in walk(solve)):
+                    continue
+                if nm in _LINEAR_SOLVERS:
+                    callees.append((nm, c))
+                elif nm not in _QUIET and not nm.startswith("_") and nm not in ("range", "len", "str", "float", "int"):
+                    if False:
+                        pass
+                    else:
+                        raise ExtractError("NewtonSolver.solve: the failure signals of `%s` (line %d) are not in the table of library contracts" % (unparse(c.func), c.lineno))
+        if not callees:
+            raise ExtractError("NewtonSolver.solve: no linear-algebra routine recognised inside the try block at line %d" % t.lineno)
+        err_handlers = [h for h in t.handlers if "SolverStatus.error" in unparse(h)]
+        for nm, c in callees:
+            for sig in _LINEAR_SOLVERS[nm]:
+                covered = any(_covers(_handler_types(h), sig) for h in err_handlers)
+                is_warning = _covers({"Warning"}, sig)
+                raised = (not is_warning) or any(len(f.args) >= 3 and unparse(f.args[2]).endswith(sig) or any(k.arg == "category" and unparse(k.value).endswith(sig) for k in f.keywords)
+                                                 or len(f.args) < 3 and not f.keywords for f in filters)
+                n += 1
+                chk.expect(covered and raised, "R-C16-7", "NewtonSolver.solve reports a failed %s(...) as SolverStatus.error [signal %s]" % (nm, sig), loc(solve, c),
+                           "%s signals a singular / unusable system by %s; the handlers of the enclosing try catch %s%s: the failure leaves solve() as a raw exception (run_sim neither "
+                           "warns nor raises its 'did not converge' error, no error_code, the backup solver is never tried)" % (
+                               nm, sig, [sorted(_handler_types(h)) if _handler_types(h) is not None else "everything" for h in t.handlers],
+                               "" if raised else " and no warnings filter turns the warning into an exception"),
+                           expected="a handler for %s (or a superclass) returning SolverStatus.error" % sig, found=[unparse(h.type) if h.type is not None else "bare except" for h in t.handlers])
+    sh = repo.func(CORE, "_solver_helper")
+    chk.fn(sh)
+    sparam = sh.args.args[1].arg if len(sh.args.args) >= 2 else None
+    if sparam is None:
+        raise AnchorError("_solver_helper: parameter list changed")
+    m = 0
+    for t in [t for t in walk(sh) if isinstance(t, ast.Try)]:
+        ext = [c for c in walk(ast.Module(body=t.body, type_ignores=[])) if isinstance(c, ast.Call) and isinstance(c.func, ast.Name) and c.func.id == sparam]
+        if not ext:
+            continue
+        m += 1
+        catch_all = [h for h in t.handlers if _handler_types(h) is None or _handler_types(h) & {"Exception", "BaseException"}]
+        ok = bool(catch_all) and all("SolverStatus.error" in unparse(h) for h in catch_all)
+        chk.expect(ok, "R-C16-7", "_solver_helper reports every failure of the caller-supplied solver as SolverStatus.error", loc(sh, t),
+                   "scipy's nonlinear solvers and the residual callback they run fail by raising (NoConvergence, ValueError, LinAlgError, OverflowError from the compiled evaluator ...); a "
+                   "handler list that names some of them lets the others escape run_sim as raw exceptions: no warning, no error_code, no partial results", expected="except: / except Exception: "
+                   "-> SolverStatus.error", found=[unparse(h.type) if h.type is not None else "bare except" for h in t.handlers])
+    if m < 1:
+        raise AnchorError("_solver_helper: no try block around a call of the caller-supplied solver found")
+    chk.floor("R-C16-7", 2)
+
+
 def run(repo, chk):
+    external_failure_rules(repo, chk)
     rs = repo.func(CORE, "WNTRSimulator.run_sim")
     chk.fn(rs)
     fl = Flow(rs)
@@ -1585,6 +1688,12 @@ _LINE_SEARCH_FLAT = (
 )
 
 WITNESSES = [
+    dict(name="linear-solve-through-splu-keeps-old-handler", file=SOLV, old='                d = -sp.linalg.spsolve(J, r, permc_spec="COLAMD", use_umfpack=False)\n', new='                lu = sp.linalg.splu(J.T, permc_spec="COLAMD")\n                d = -lu.solve(r, trans="T")\n', rule="R-C16-7"),
+    dict(name="quiet-linear-solve-through-splu-with-its-handler", file=SOLV, silent=True, old='                d = -sp.linalg.spsolve(J, r, permc_spec="COLAMD", use_umfpack=False)\n            except sp.linalg.MatrixRankWarning:\n',
+         new='                lu = sp.linalg.splu(J.T, permc_spec="COLAMD")\n                d = -lu.solve(r, trans="T")\n            except (sp.linalg.MatrixRankWarning, RuntimeError):\n'),
+    dict(name="scipy-solver-failures-enumerated", file=CORE, old="            sol = SolverStatus.converged, '', None\n        except:\n", new="            sol = SolverStatus.converged, '', None\n        except (ValueError, FloatingPointError, np.linalg.LinAlgError):\n", rule="R-C16-7"),
+    dict(name="quiet-scipy-solver-except-exception", file=CORE, silent=True, old="            sol = SolverStatus.converged, '', None\n        except:\n", new="            sol = SolverStatus.converged, '', None\n        except Exception:\n"),
+    dict(name="singular-matrix-warning-no-longer-an-error", file=SOLV, old='warnings.filterwarnings(\n    "error", "Matrix is exactly singular", sp.linalg.MatrixRankWarning\n)', new='pass', rule="R-C16-7"),
     dict(name="none-iteration-count-formatted", file=CORE, old="trial, str(iter_count), num_isolated_junctions", new="trial, iter_count, num_isolated_junctions", rule="R-C16-6"),
     dict(name="report-timestep-classified-twice", file=CORE, old="            if not isinstance(self._report_timestep, str):  # same test", new="            if isinstance(self._report_timestep, (float, int)):  # same test", rule="R-C16-6"),
     dict(name="loop-variable-unbound-for-zero-iterations", file=SOLV, old="        outer_iter = 0  # reported when the loop does not run at all (MAXITER = 0)\n", new="", rule="R-C16-6"),
